@@ -36,7 +36,7 @@ def DiagOK (off : Nat) (w : List Char) (d : Diag) : Prop := ∀ l ∈ d.labels, 
     text is faithful (`TextOK`), every label of a diagnostic is such a span -/
 def EvSpansOK (off : Nat) (w : List Char) : Ev α → Prop
   | .frontMatter t => TextOK off w t
-  | .metadata k v => TextOK off w k ∧ TextOK off w v
+  | .metadata k v => TextOK off w k ∧ TextOK off w v ∧ k.span.stop ≤ v.span.start
   | .«section» n => OptOK (TextOK off w) n
   | .start _ => True
   | .stop _ => True
@@ -1806,7 +1806,14 @@ theorem metadataEntry_ev (hc : Ctx off w Pv ts) (h : GE Pv ts e s) :
       refine Sat.bind (Sat.get ?_)
       dsimp only
       have hok : EvSpansOK off w (Ev.metadata (α := α) (buildText (offAt ts s1.cur) keyT)
-          (buildText (offAt ts s3.cur) valT)) := ⟨hr.text, hr2.text⟩
+          (buildText (offAt ts s3.cur) valT)) := by
+        refine ⟨hr.text, hr2.text, ?_⟩
+        have hrg := hr.text_range
+        have hrg2 := hr2.text_range
+        have e1 : lastStop (offAt ts s1.cur) keyT = offAt ts s2.cur := by rw [hkey]; exact offAt_slice c2
+        rw [e1] at hrg
+        have h1 := hc.wfi.offAt_mono (show s2.cur ≤ s3.cur by omega)
+        omega
       have hin : EvIn ts s.cur s4.cur (Ev.metadata (α := α) (buildText (offAt ts s1.cur) keyT)
           (buildText (offAt ts s3.cur) valT)) := by
         intro sp hsp
